@@ -28,8 +28,8 @@ def _specs() -> Dict[str, Dict[str, Any]]:
         specs[pid] = {
             "id": pid, "stream": "loader", "profile": loader, "props": [pid], "level": "exploration",
             "batches": [
-                {"name": "fault-free", "args": {"faulty": False}, "runs": {"quick": 160, "thorough": 3000}},
-                {"name": "faults", "args": {"faulty": True}, "runs": {"quick": 80, "thorough": 1500}},
+                {"name": "fault-free", "args": {"faulty": False}, "runs": {"quick": 160, "thorough": 30000}},
+                {"name": "faults", "args": {"faulty": True}, "runs": {"quick": 80, "thorough": 15000}},
             ],
             "rule": loader_rule,
             "assumptions": GENERATOR_ASSUMPTIONS,
@@ -41,9 +41,9 @@ def _specs() -> Dict[str, Dict[str, Any]]:
     specs["C11"] = {
         "id": "C11", "stream": "symtab", "profile": symtab, "props": ["C11"], "level": "exploration",
         "batches": [
-            {"name": "history", "args": {"kind": "history"}, "runs": {"quick": 200, "thorough": 6000}},
-            {"name": "decode", "args": {"kind": "decode"}, "runs": {"quick": 120, "thorough": 2500}},
-            {"name": "env", "args": {"kind": "env"}, "runs": {"quick": 96, "thorough": 1600}},
+            {"name": "history", "args": {"kind": "history"}, "runs": {"quick": 200, "thorough": 40000}},
+            {"name": "decode", "args": {"kind": "decode"}, "runs": {"quick": 120, "thorough": 20000}},
+            {"name": "env", "args": {"kind": "env"}, "runs": {"quick": 96, "thorough": 8000}},
         ],
         "rule": ("three kinds of simulated run. history: a seeded sequence of 2-10 symbol-table operations (add_symbols, "
                  "add_symbols_mp on a lock-step fork pool whose tape interleaves the workers' individual queue puts, clone, "
@@ -67,7 +67,7 @@ def _specs() -> Dict[str, Dict[str, Any]]:
     ]
     specs["C09"] = {
         "id": "C09", "stream": "cp09", "profile": cp, "props": ["C09"], "level": "exploration",
-        "batches": [{"name": "histories", "args": {"kind": "c09"}, "runs": {"quick": 200, "thorough": 5000}}],
+        "batches": [{"name": "histories", "args": {"kind": "c09"}, "runs": {"quick": 200, "thorough": 40000}}],
         "rule": ("one evaluation = one simulated session over a causally consistent generated world: load, 1-2 critical-path "
                  "analyses (annotation window / instance range / env flags), then a history of recompute, re-weight k edges "
                  "(speed-up, slow-down, zero, set) + recompute, deepcopy and continue on the copy, look at the original again; "
@@ -82,14 +82,14 @@ def _specs() -> Dict[str, Dict[str, Any]]:
     specs["C19"] = {
         "id": "C19", "stream": "cp19", "profile": cp, "props": ["C19"], "level": "exploration",
         "batches": [
-            {"name": "fault-free", "args": {"kind": "c19", "faulty": False}, "runs": {"quick": 140, "thorough": 3000}},
-            {"name": "faults", "args": {"kind": "c19", "faulty": True}, "runs": {"quick": 100, "thorough": 2500}},
+            {"name": "fault-free", "args": {"kind": "c19", "faulty": False}, "runs": {"quick": 140, "thorough": 20000}},
+            {"name": "faults", "args": {"kind": "c19", "faulty": True}, "runs": {"quick": 100, "thorough": 12000}},
             # fault-point enumeration: `slots` consecutive runs share a base plan; slot j puts one fault at the
             # j-th (file, open, call) x kind point of the first save / the first restore
             {"name": "enum-save", "args": {"kind": "c19", "enum": "save"}, "slots": 128,
-             "runs": {"quick": 2 * 128, "thorough": 40 * 128}},
+             "runs": {"quick": 2 * 128, "thorough": 100 * 128}},
             {"name": "enum-restore", "args": {"kind": "c19", "enum": "restore"}, "slots": 32,
-             "runs": {"quick": 2 * 32, "thorough": 40 * 32}},
+             "runs": {"quick": 2 * 32, "thorough": 100 * 32}},
         ],
         "rule": ("one evaluation = one simulated run: analysis in session A, then 1-4 save / restore cycles in which each "
                  "restore happens in the same session, in a new interpreter under the same zygote, or in a new interpreter "
@@ -118,8 +118,8 @@ def _specs() -> Dict[str, Dict[str, Any]]:
     ]
     specs["C13"] = {
         "id": "C13", "stream": "callgraph", "profile": callgraph, "props": ["C13"], "level": "exploration",
-        "batches": [{"name": "histories", "args": {}, "runs": {"quick": 220, "thorough": 5000}},
-                    {"name": "big", "args": {"big": True}, "runs": {"quick": 12, "thorough": 200}}],
+        "batches": [{"name": "histories", "args": {}, "runs": {"quick": 220, "thorough": 30000}},
+                    {"name": "big", "args": {"big": True}, "runs": {"quick": 12, "thorough": 1500}}],
         "rule": cg_rule, "assumptions": cg_assume,
         "expected_probes": ["second_build", "build_after_another_ranks_build", "more_than_127_events",
                             "more_than_127_kernels_under_one_operator", "backward_linking_checked",
@@ -127,9 +127,9 @@ def _specs() -> Dict[str, Dict[str, Any]]:
     }
     specs["C16"] = {
         "id": "C16", "stream": "callgraph", "profile": callgraph, "props": ["C16"], "level": "exploration",
-        "batches": [{"name": "histories", "args": {}, "runs": {"quick": 220, "thorough": 5000}},
-                    {"name": "big", "args": {"big": True}, "runs": {"quick": 12, "thorough": 200}},
-                    {"name": "faults", "args": {"faulty": True}, "runs": {"quick": 60, "thorough": 1000}}],
+        "batches": [{"name": "histories", "args": {}, "runs": {"quick": 220, "thorough": 30000}},
+                    {"name": "big", "args": {"big": True}, "runs": {"quick": 12, "thorough": 1500}},
+                    {"name": "faults", "args": {"faulty": True}, "runs": {"quick": 60, "thorough": 6000}}],
         "rule": cg_rule + "; C16: the returned pattern table (patterns, counts, CPU / GPU durations, row order) is recomputed from the tool's own tree for the same arguments, and the n-th call must equal the first call with the same arguments; fault batch: ENOSPC / EIO inside the write of the overlay file",
         "assumptions": cg_assume + ["operator names are chosen so that they match host operator names only",
                                     "runs in which two kernels of one operator start at the same instant under different names are skipped (either order is allowed)"],
@@ -140,10 +140,10 @@ def _specs() -> Dict[str, Dict[str, Any]]:
     specs["C20"] = {
         "id": "C20", "stream": "files", "profile": files, "props": ["C20"], "level": "exploration",
         "batches": [
-            {"name": "fault-free", "args": {"faulty": False}, "runs": {"quick": 160, "thorough": 3000}},
-            {"name": "faults", "args": {"faulty": True}, "runs": {"quick": 80, "thorough": 2000}},
+            {"name": "fault-free", "args": {"faulty": False}, "runs": {"quick": 160, "thorough": 20000}},
+            {"name": "faults", "args": {"faulty": True}, "runs": {"quick": 80, "thorough": 10000}},
             {"name": "enum-writers", "args": {"enum": True}, "slots": 64,
-             "runs": {"quick": 3 * 64, "thorough": 60 * 64}},
+             "runs": {"quick": 3 * 64, "thorough": 200 * 64}},
         ],
         "rule": ("one evaluation = one simulated run over a generated world in both file formats: session A loads the directory "
                  "and issues 1-4 writer operations (generate_trace_with_counters with every series selection / rank subset / "
